@@ -642,7 +642,7 @@ func init() {
 	vk.Register(&vk.Spec{
 		ID:    "C06",
 		Level: "exploration",
-		Rule: "unauthenticated: random bytes (0..1 MiB), truncations of valid streams at every header boundary, single-bit flips in salt/length/length-tag, wrong key, replays (cache on), with/without client FIN, client that keeps dribbling bytes, three rigs (1 key/no cache, 12 keys/cache, 100 keys/cache/raw conn), plus probes being absorbed when the listener shuts down; " +
+		Rule: "unauthenticated: random bytes (0..1 MiB), truncations of valid streams at every header boundary, single-bit flips in salt/length/length-tag, wrong key, replays (cache on), with/without client FIN, client that keeps dribbling bytes, three rigs (1 key/no cache, 12 keys/cache, 100 keys/cache/raw conn), 300..700 failing probes from one address amid legitimate clients that flip the keys' last-used address, then held probes from it; plus probes being absorbed when the listener shuts down; " +
 			"authenticated-then-invalid: corrupted data chunk/length mid-relay (target closes on EOF), corrupted address chunk, unparseable address type, truncated address; oracles at the client socket (bytes, close kind, close time vs t0 taken before dialling) and at the server-side conn wrapper (writes, deadline, close time); class = (phase, input class, cipher, length bucket, FIN, rig)",
 		Assumptions: []string{"handshake timeout 0.7 s; 'not before the timeout' is checked against a timestamp taken before dialling (sound under load); 'within bounded time' uses B = 10 s", "observation window for 'not actively closed' is 2 x timeout while the client keeps writing"},
 		Batches:     func(t string) int { return map[string]int{"quick": 4, "thorough": 16}[t] },
